@@ -1,7 +1,11 @@
 """property -> correspondence suites"""
-from .suites import pure, diff, walk, sync, proto
+from .suites import pure, diff, walk, sync, proto, faults
 
 PROPS = {
+    "C04": {
+        "suites": [faults.FaultSend, faults.FaultSync],
+        "assumptions": ["'bounded time' = returns within 3 s of wall clock after the harness tears the stream down; environment calls (reads, callbacks) return"],
+    },
     "C08": {
         "suites": [sync.SchedSuite],
         "assumptions": ["'no data race' is a statement about the Go memory model: not expressible in the model; the overlap detector decides 'no two SendMsg/RecvMsg in flight'"],
